@@ -1147,6 +1147,25 @@ def rw_fnparam(fi, args, spec=None):
     return edits
 
 
+def rw_iterall(fi, args, spec=None):
+    """R-ITERALL: `X.iter().all(CLOSURE)` (X an identifier) -> `vc_all(X, CLOSURE)`; Verus has no specification for
+    iterator adapters. `vc_all` (prelude/std_extra.vs) is a verified loop with the meaning of Iterator::all for a
+    closure whose result is a function of the element."""
+    toks = fi.toks
+    edits = []
+    i = fi.item.body_open + 1
+    while i + 7 < fi.item.body_close:
+        if toks[i].kind == 'id' and not is_p(toks[i - 1], '.') and is_p(toks[i + 1], '.') and is_id(toks[i + 2], 'iter') \
+                and is_p(toks[i + 3], '(') and is_p(toks[i + 4], ')') and is_p(toks[i + 5], '.') and is_id(toks[i + 6], 'all') and is_p(toks[i + 7], '('):
+            edits.append((toks[i].start, toks[i + 7].end, f'vc_all({toks[i].text}, ', 'R-ITERALL'))
+            i += 8
+            continue
+        i += 1
+    if not edits:
+        raise LostAnchor(f'fn {fi.item.name}: R-ITERALL did not fire')
+    return edits
+
+
 def rw_dyncall(fi, args, spec=None):
     """R-DYNCALL: `(RECV)(ARGS)` (call of a `dyn Fn` object stored in a field) -> `RECV.vc_call(ARGS)`; Verus does not
     support `dyn Fn` types, the stub type of the field offers `vc_call` with the closure's assumed contract."""
@@ -1171,6 +1190,7 @@ def rw_dyncall(fi, args, spec=None):
 
 REWRITES = {
     'R-DYNCALL': rw_dyncall,
+    'R-ITERALL': rw_iterall,
     'R-FNPARAM': rw_fnparam,
     'R-PARAMNAME': rw_paramname,
     'R-HOISTEND': rw_hoistend,
